@@ -339,7 +339,7 @@ def c06_extra(Job, tier):
 
 
 def c07_extra(Job, tier):
-    return trackcheck_jobs(Job) + mmb_jobs(Job) + write_span_jobs(Job) + selector_jobs(Job) + [j for j in names_jobs(Job) if "less" in j.name] + [j for j in space_jobs(Job) if "start_sec" in j.name]
+    return trackcheck_jobs(Job) + mmb_jobs(Job) + write_span_jobs(Job) + selector_jobs(Job) + [j for j in names_jobs(Job) if "less" in j.name] + [j for j in space_jobs(Job) if "start_sec" in j.name] + hfegeom_jobs(Job)
 
 
 # ---- destination directory / make_name (C12) ---------------------------------------------------------------------------
@@ -583,3 +583,8 @@ def inf_jobs(Job, cfg=CFG_NDEBUG, tier="quick"):
     return [Job("D_create_inf_file_%s" % cfg[0], "harness/dfs_inf.c", "h_inf", enforce=["create_inf_file"], defines=list(cfg[1]),
                 extract=ext([n for n in INFO_GROUP if n != "info_line"] + ["create_inf_file"]), tier=tier, solver="portfolio", cover=True,
                 cbmc=["--unwindset", "CatalogEntry_name.0:8,spec_streq_.0:9", "--unwinding-assertions"])]
+
+
+def hfegeom_jobs(Job, cfg=CFG_NDEBUG, tier="quick"):
+    return [Job("D_hfe_geometry_tail_%s" % cfg[0], "harness/dfs_hfegeom.c", "h_hfe_geometry", enforce=["hfe_geometry_tail"],
+                defines=list(cfg[1]), extract=ext(["hfe_encodings", "hfe_geometry_tail"]), tier=tier)]
